@@ -4,7 +4,7 @@
 # Applies each patch to /repo in turn and reverts it; do not run while anything else uses /repo.
 TIER=${1:-quick}
 cd /verif
-OUT=out/selftest.txt; mkdir -p out; : > $OUT
+OUT=seeded/selftest_summary.txt; mkdir -p out; : > $OUT
 # the evidence files are rewritten by every run: keep the ones of the unchanged tree
 rm -rf out/evidence_keep; cp -r evidence out/evidence_keep
 for d in seeded/*/; do
